@@ -485,6 +485,23 @@ fn route_validity_probe(a: &mut Args) -> String {
 	format!("{} {}", route.paths.len(), mask)
 }
 
+/// noise_probe <n_messages> <msg_len> <tamper_at> <tamper_where>
+/// (hook lightning::ln::noise_verif_hooks::noise_probe) Two real PeerChannelEncryptors complete the BOLT-8 handshake (fixed keys); the initiator then encrypts <n_messages>
+/// messages of <msg_len> bytes (>= 2: type + payload, byte value = message index) and the responder decrypts each one:
+/// length header first, then the body. Message number <tamper_at> (1-based, 0 = none) has one bit flipped on the wire:
+/// <tamper_where> 0 = in the encrypted length, 1 = in the length MAC, 2 = in the encrypted body, 3 = in the body MAC.
+/// Output: `<messages delivered intact before the first failure> <kind of the first failure> <its index>`; kinds: 0 none,
+/// 1 the length header was rejected, 2 a wrong length was accepted, 3 the body was rejected, 4 a wrong body was accepted.
+/// The same is then done in the other direction with the roles swapped; both directions must agree (else `error`).
+fn noise_probe(a: &mut Args) -> String {
+	let (n, len, tamper_at, tamper_where) = (a.usize(), a.usize(), a.usize(), a.u8());
+	let [fwd, back] = lightning::ln::noise_verif_hooks::noise_probe(n, len, tamper_at, tamper_where);
+	if fwd != back {
+		return format!("error directions differ {:?} {:?}", fwd, back);
+	}
+	format!("{} {} {}", fwd.0, fwd.1, fwd.2)
+}
+
 /// node_announcement_addr_probe <addr_len> <avail> (<kind> <hostname_len>)*: decodes (real
 /// `UnsignedNodeAnnouncement::read_from_fixed_length_buffer`) the byte string
 ///   flen=0 | timestamp | node_id | rgb | alias | addr_len | descriptors... zero padding
@@ -787,6 +804,7 @@ fn dispatch(name: &str, a: &mut Args) -> String {
 		"route_overpay_probe" => route_overpay_probe(a),
 		"route_mpp_overpay_probe" => route_mpp_overpay_probe(a),
 		"route_validity_probe" => route_validity_probe(a),
+		"noise_probe" => noise_probe(a),
 		"channel_config_roundtrip" => {
 			// <prop> <base> <cltv delta> <force close fee> <accept underpaying> <dust kind 0 fixed / 1 multiplier> <dust value>
 			use lightning::util::config::{ChannelConfig, MaxDustHTLCExposure};
